@@ -21,7 +21,7 @@ import core
 from props import sked_doubles as sd
 
 CTL = {0: "stop", 1: "start", 2: "run", 3: "abort", 4: "ready"}
-FUEL = 300
+FUEL = 120
 
 
 def taskables(case):
@@ -251,8 +251,8 @@ def run_case(case):
         seen[0] += 1
         if seen[0] > 1:
             run.tick += 1
-            if run.tick > FUEL:
-                raise core.HarnessTimeout("tick budget exceeded")
+            if run.tick >= FUEL:
+                raise sd.Budget("tick budget exceeded")
         return orig_cs(stamp)
     store.changeStamp = counting
 
@@ -262,6 +262,8 @@ def run_case(case):
             outcome = "returned"
         except core.HarnessTimeout:
             raise
+        except sd.Budget:
+            outcome = "fuel"
         except BaseException as ex:
             outcome = "raised " + sd.exc_name(ex)
     finally:
